@@ -72,7 +72,7 @@ def _lim(**kw):
 class _ProgStream(Stream):
     parallel = True
     n_quick = 220
-    n_thorough = 2600
+    n_thorough = 1600
     label = "progs"
 
     def cases(self, ctx):
@@ -129,7 +129,7 @@ class OutStream(_ProgStream):
         base = lc.run_prog(prog, _lim())
         U = lc.utf8_len(base["ok"]) if "ok" in base else 12
         limits = self.plan(case, U)
-        results = [lc.run_prog(prog, _lim(output=L)) for L in limits]
+        results = [lc.run_prog(prog, _lim(output=L), is_async=(i % 5 == 4)) for i, L in enumerate(limits)]
         return {
             "base": lc.canon_outcome(base),
             "U": U if "ok" in base else None,
@@ -206,9 +206,9 @@ class NsStream(_ProgStream):
         keep = [0, 1] + ([max(sizes), max(sizes) + 1, max(sizes) - 1] if sizes else [])
         limits = lc.thin(vals, rng, MAX_SWEEP, keep=keep)
         results, logs = [], []
-        for M in limits:
+        for i, M in enumerate(limits):
             sp = lc.new_spy()
-            r = lc.run_prog(prog, _lim(ns=M), spy=sp)
+            r = lc.run_prog(prog, _lim(ns=M), spy=sp, is_async=(i % 5 == 4))
             results.append(lc.canon_outcome(r, [s[0] for s in sp["sizes"]] if (M and "ok" in r) else None))
             logs.append(sp["sizes"] if "ok" in r else None)
         return {
